@@ -74,8 +74,18 @@ def discover_sites() -> List[Dict[str, Any]]:
 # ---------------------------------------------------------------------------
 # helpers shared by the drivers
 # ---------------------------------------------------------------------------
+_PAIRS: List[List[str]] = []
+
+
 def all_alias_pairs() -> List[List[str]]:
     """[wire name, attribute name] of every aliased member of every discovered class."""
+    if _PAIRS:
+        return _PAIRS
+    _PAIRS.extend(_all_alias_pairs())
+    return _PAIRS
+
+
+def _all_alias_pairs() -> List[List[str]]:
     classes, _ = wiregen.discover()
     pairs = set()
     for c in classes:
@@ -126,6 +136,9 @@ def instances(cls: type, limit: Optional[int] = None) -> List[Tuple[str, Dict[st
     for label, w in wiregen.wire_objects(cls, 2):
         if any(v is None for v in w.values()) or label.startswith("unknown:"):
             continue                     # the unknown-member family is part A's material
+        if keys_of(w) & {a for _, a in all_alias_pairs()}:
+            continue                     # free-form data keys spelled like an attribute name (part A's material): the
+                                         # names oracle of part B needs inputs that do not use those words as data
         if wiregen.qual(cls).endswith(":Root") and not str(w.get("uri", "")).startswith("file://"):
             continue
         w = marked(cls, w)
